@@ -28,6 +28,7 @@ ASSUMPTIONS = [
     "A document key conflicts when the source holds a non-mapping value (or a mapping where the destination holds a "
     "non-mapping) at a dotted path at which the destination holds a different value.",
 ]
+MANIFEST = {"technique": 'runtime monitoring: recording strategy wrappers + reference merge model on byte snapshots', "engine": 'reference-model monitor'}
 TIME_CAP = {"quick": 70, "thorough": 1500}
 
 
